@@ -42,6 +42,7 @@ def check(ck):
     r11_3(ck)
     r11_4(ck)
     r11_5_6(ck)
+    r11_7(ck)
 
 
 def r11_1(ck):
@@ -466,3 +467,9 @@ def r11_5_6(ck):
                                     ('isnot', nm, 'None')}), s)
         ck.require(bool(stores), 'R11.6', f, st,
                    "each child's shares are stored under its key", None, st)
+
+
+def r11_7(ck):
+    """Daughters stay independent under later updates (shared with C08)."""
+    from . import c08
+    c08.r08_8(ck, rule='R11.7')
